@@ -694,6 +694,22 @@ impl GrafeoDB {
     ///
     /// If WAL is enabled, the operation is logged for durability.
     pub fn delete_node(&self, id: grafeo_common::types::NodeId) -> bool {
+        // Detach first: the store's delete_node does not cascade, so remove (and
+        // log) every edge touching the node, otherwise they would be left dangling.
+        if self.store.get_node(id).is_some() {
+            let mut edge_ids: Vec<grafeo_common::types::EdgeId> = self
+                .store
+                .edges_from(id, grafeo_core::graph::Direction::Outgoing)
+                .map(|(_, edge_id)| edge_id)
+                .collect();
+            edge_ids.extend(self.store.edges_to(id).into_iter().map(|(_, edge_id)| edge_id));
+            edge_ids.sort_unstable();
+            edge_ids.dedup();
+            for edge_id in edge_ids {
+                self.delete_edge(edge_id);
+            }
+        }
+
         let result = self.store.delete_node(id);
 
         #[cfg(feature = "wal")]
